@@ -43,7 +43,7 @@ def selftest():
 @st.composite
 def case_strategy(draw):
     c = draw(cases.spacetime_case(
-        kinds=("Wp", "Wp", "Wp", "Wn", "F", "KS", "PP", "FLp", "FL"),
+        kinds=("Wp", "Wp", "Wp", "Wn", "F", "KS", "PP", "FLp", "FL", "Wt0"),
         orders_p=(2, 4, 4, 6), orders_n=(2, 4), extra_n=(3, 5),
         np_range=(10, 12), trim=3))
     fam = c["spec"]["family"]
